@@ -64,6 +64,7 @@ package mkvs
 //@ func tree.Insert
 //@   props C13
 //@   nowrite pendingEntry.existed
+//@   note the `existed` flag of a pending entry records whether the key was present in the last COMMITTED root; it is set when the entry is created and never rewritten by a later insert or removal of the same key in the batch
 //@   precall mkvs\.cache\)\.setPendingRoot$ :: t.withoutWriteLog || (t.pendingWriteLog[ufr[string]("toMapKey", key)] != nil && t.pendingWriteLog[ufr[string]("toMapKey", key)].insertedLeaf == result.insertedLeaf && bytesId(t.pendingWriteLog[ufr[string]("toMapKey", key)].value) == bytesId(value) && (defined(entry) && entry == nil ==> t.pendingWriteLog[ufr[string]("toMapKey", key)].existed == result.existed))
 //@   note the stored write log and its annotations are built from these entries at commit: a stale leaf (e.g. nil after remove + re-insert in one batch) would make the database serve a log that does not reproduce the new root
 
